@@ -83,13 +83,13 @@ def gen_base58():
     return out
 
 
-# further tables are registered by the per-area generator modules
-for _mod in ("gen_more",):
-    try:
-        _m = importlib.import_module(_mod)
-        _m.register(sys.modules[__name__])
-    except ModuleNotFoundError:
-        pass
+# further tables are registered by the per-property generator modules harness/gen_c*.py
+# (each defines register(gt) and uses gt.table / gt.coq_* helpers)
+import glob
+sys.path.insert(0, os.path.dirname(os.path.abspath(__file__)))
+for _path in sorted(glob.glob(os.path.join(os.path.dirname(os.path.abspath(__file__)), "gen_c*.py"))):
+    _m = importlib.import_module(os.path.basename(_path)[:-3])
+    _m.register(sys.modules[__name__])
 
 
 def main(argv):
